@@ -13,6 +13,8 @@ open Atomman Atomman.C10
     sys   <via> unit(box) <12 rationals> <3 pbc> <nsym> {sym|-}* <nmass> {mass|-}* <natoms> <nprops> {<name> unit arr}*
     ec    <via> unit <crystal system> <mu|-> <K|-> <36 C>     (mu, K: Hill estimates, `-` when they raise)
     nest  <rank> <dims…> <data…>
+    obj   <12 rationals> <natoms> <pos…> {warm | c2r p | r2c p | setv m | seto o | bread <via> unit <12 rationals>
+          | sysdump <via> unit}*      (one System object holding one Box object; reply: one value per operation)
   via = tree | json | xml (xml applies the one-element-list collapse before reading back).
 -/
 
@@ -184,6 +186,83 @@ def facTabs (props : List (String × UnitSpec × Arr Rat)) (extra : List (Option
     ++ extra.filterMap (fun (u, a, b) => u.map (fun s => (s, a, b)))
   (mkFac (ents.map (fun (s, a, _) => (s, a))), mkFac (ents.map (fun (s, _, b) => (s, b))))
 
+/-! ### object sessions: one `System` object (holding its `Box` object) through a sequence of operations -/
+
+def jM3 (m : M3 Rat) : String := jList [jV3 m.r0, jV3 m.r1, jV3 m.r2]
+
+def pV3 : P (V3 Rat) := fun ts =>
+  match pMany pRat 3 ts with
+  | some ([x, y, z], r) => some (⟨x, y, z⟩, r)
+  | _ => none
+
+def pM3 : P (M3 Rat) := fun ts =>
+  match pV3 ts with
+  | none => none
+  | some (a, r1) =>
+    match pV3 r1 with
+    | none => none
+    | some (b, r2) => (pV3 r2).map (fun (c, r3) => (⟨a, b, c⟩, r3))
+
+def facOf (u : UnitSpec) : (String → Rat) × (String → Rat) := facTabs [] [(u.unit, u.fW, u.fR)]
+
+/-- run the operations left to right; one JSON value per operation (`null`: the operation raised, state kept). -/
+partial def objOps (s : SysObj Rat) (acc : List String) : List String → Option (List String)
+  | [] => some acc.reverse
+  | "warm" :: r =>
+    let (m, b') := s.bobj.recipVects
+    objOps { s with bobj := b' } (("{\"recip\":" ++ jM3 m ++ "}") :: acc) r
+  | "c2r" :: r =>
+    match pV3 r with
+    | none => none
+    | some (p, r1) =>
+      let (v, b') := s.bobj.cartToRel p
+      objOps { s with bobj := b' } (("{\"rel\":" ++ jV3 v ++ "}") :: acc) r1
+  | "r2c" :: r =>
+    match pV3 r with
+    | none => none
+    | some (p, r1) => objOps s (("{\"cart\":" ++ jV3 (s.bobj.box.relToCart p) ++ "}") :: acc) r1
+  | "setv" :: r =>
+    match pM3 r with
+    | none => none
+    | some (m, r1) =>
+      let b' := s.bobj.setVects eps m
+      objOps { s with bobj := b' } (("{\"box\":" ++ jBox b'.box ++ "}") :: acc) r1
+  | "seto" :: r =>
+    match pV3 r with
+    | none => none
+    | some (o, r1) =>
+      let b' := s.bobj.setOrigin o
+      objOps { s with bobj := b' } (("{\"box\":" ++ jBox b'.box ++ "}") :: acc) r1
+  | "bread" :: via :: r =>
+    match pUnit r with
+    | none => none
+    | some (u, r1) =>
+      match pM3 r1 with
+      | none => none
+      | some (m, r2) =>
+        match pV3 r2 with
+        | none => none
+        | some (o, r3) =>
+          let (fw, fr) := facOf u
+          -- the other box is a `Box` object too: its vectors went through the setter
+          match (boxModel fw u.unit ⟨cleanVects eps m, o⟩).bind (viaOf via) with
+          | none => objOps s ("null" :: acc) r3
+          | some t =>
+            match s.bobj.readModel fr eps t with
+            | none => objOps s ("null" :: acc) r3
+            | some b' => objOps { s with bobj := b' } (("{\"box\":" ++ jBox b'.box ++ "}") :: acc) r3
+  | "sysdump" :: via :: r =>
+    match pUnit r with
+    | none => none
+    | some (u, r1) =>
+      let (fw, fr) := facTabs [("pos", ⟨some "scaled", 1, 1⟩, (⟨[], .flt []⟩ : Arr Rat))] [(u.unit, u.fW, u.fR)]
+      let (w, s') := s.model fw u.unit [("atype", none), ("pos", some "scaled")]
+      match w.bind (viaOf via) with
+      | none => objOps s' ("null" :: acc) r1
+      | some t =>
+        objOps s' (("{\"read\":" ++ (match systemRead fr eps t with | none => "null" | some x => jSys x) ++ "}") :: acc) r1
+  | _ => none
+
 def handleC10 (toks : List String) : String :=
   match toks with
   | "uc" :: via :: r =>
@@ -278,6 +357,26 @@ def handleC10 (toks : List String) : String :=
         | none => err "format"
       | none => err "format"
     | _ => err "format"
+  | "obj" :: r =>
+    -- obj <12 rationals: a b c origin> <natoms> <3·natoms rationals: pos> <operations…>
+    match pM3 r with
+    | none => err "format"
+    | some (m, r1) =>
+      match pV3 r1 with
+      | none => err "format"
+      | some (o, n :: r2) =>
+        match n.toNat? with
+        | none => err "format"
+        | some n =>
+          match pMany pRat (3 * n) r2 with
+          | none => err "format"
+          | some (pos, r3) =>
+            let atoms : AtomsM Rat := ⟨n, [("atype", ⟨[n], .int (List.replicate n 1)⟩), ("pos", ⟨[n, 3], .flt pos⟩)]⟩
+            let s : SysObj Rat := ⟨BoxObj.ofBox ⟨cleanVects eps m, o⟩, [true, true, true], [none], [none], atoms⟩
+            match objOps s [] r3 with
+            | none => err "format"
+            | some outs => jList outs
+      | _ => err "format"
   | "nest" :: rk :: r =>
     match rk.toNat? with
     | none => err "format"
